@@ -52,17 +52,17 @@ CHECKS = {
             "Random vocabularies and op sequences are executed against Vec/BTreeSet models; the trie walk is compared with per-token evaluation under random table DFAs with a stack monitor; tokenizer.json and tiktoken adapters are compared with independently computed token bytes; the same scenarios run with debug assertions and under Miri.",
             "Miri covers the toktrie-only scenarios (the HF adapter pulls C code)."),
     "C17": ("runtime monitor: C functions mirrored step by step on Rust objects, canary-guarded buffers of many lengths, AddressSanitizer build",
-            "llg_* calls are mirrored on Rust Constraint/Matcher objects; destination buffers of many lengths carry canaries and a fill pattern; the same workload runs under AddressSanitizer so that reads outside the engine's mask abort.",
+            "llg_* calls (44 of the 46 exported functions: constraint, matcher, tokenizer v1/v2/callback, tokenize/decode/stringify, validate_grammar, stop controller) are mirrored on Rust Constraint/Matcher/StopController objects; destination buffers of many lengths carry canaries and a fill pattern; the same workload runs under AddressSanitizer so that reads outside the engine's mask abort.",
             "The C API is exercised from Rust (no C compiler in the loop)."),
     "C18": ("runtime monitor: protocol state machine over Matcher/Constraint call sequences incl. illegal calls; reference stop-sequence model over a reference DFA",
-            "Stop decisions are compared with a reference TokenParser driven without check_stop; text at stop must be complete for an independent byte engine; illegal calls on clones must fail for good or change nothing; the stop controller is compared with an earliest-match model.",
+            "Stop decisions are compared with a reference TokenParser driven without check_stop; text at stop must be complete for an independent byte engine; illegal calls on clones must fail for good or change nothing; Constraint runs under tight per-step limits must report errors that stay errors, never a stop on incomplete text; the stop controller is compared with an earliest-match model.",
             "Ambiguous stop matches (several lengths ending at the same earliest position) are skipped."),
     "C19": ("runtime monitor: special-id scan of every mask of text grammars; token-reference grammars vs harness set model; marker tokenisation checks",
             "No special id may appear in any mask of a text grammar; masks at <name>/<[..]> positions must equal the denoted sets exactly; names in plain text never tokenise to specials while marker forms do.",
             "HF added-token matching is adapter policy and not asserted."),
     "C20": ("runtime monitor: hostile-input workers with RLIMIT_AS / per-case RLIMIT_CPU, crash attribution by journal, overflow-checks vs release join (+ ASan in thorough)",
             "~30 classes of hostile inputs are built and driven in worker processes; any death by signal, stack overflow, allocation abort or CPU-budget overrun, any panic in a legal call, any answer from a failed engine, and any input on which the overflow-checks build panics with an arithmetic overflow while the release build returns an engine is a violation.",
-            "CPU budget 20 s (quick) / 120 s (thorough) per case stands in for 'loops without bound'."),
+            "CPU budget 40 s (quick) / 240 s (thorough) per case stands in for 'loops without bound'."),
 }
 
 LEVEL = {k: "exploration" for k in CHECKS}
